@@ -1123,13 +1123,19 @@ def _save_case(R, case, model_q):
     ft = features(desc)
     expect_refusal = ft["mm_elsewhere"] and not ce and api != "memmap_like"
     ref, _, _ = full_obs(desc, api, 0, None, False, ce)
+    if ft["reserved_key"]:
+        # contract since the D102 repair: an entry named like a field of meta.json ("shape", "device", "_type") is refused
+        # with a ValueError when saving, by every front-end, with or without a pool
+        if ref.get("outcome") != "raise:ValueError":
+            fail(R, "save:", "reserved-name-not-refused", dict(case, num_threads=0, order=None), {"outcome": ref.get("outcome")})
+        expect_refusal = True
     if "build_error" in ref:
         raise RuntimeError("machinery: cannot build " + json.dumps(desc)[:300] + " :: " + ref["build_error"])
     R.traces += 1
     c0 = dict(case, num_threads=0, order=None)
     c0.pop("runs", None)
     if expect_refusal:
-        # documented contract: an entry stored on disk elsewhere is refused unless copy_existing=True
+        # documented contract: an entry stored on disk elsewhere is refused unless copy_existing=True (and see above)
         if ref["outcome"] == "ok":
             fail(R, "save:", "elsewhere-not-refused", c0, {"outcome": ref["outcome"]})
     else:
@@ -2018,11 +2024,13 @@ def load_corpus():
 def check_dtype_table(R):
     """the model's _STRDTYPE2DTYPE is the code's (quantised dtypes aside: no tensor of them can be an entry here)"""
     from tensordict.utils import _STRDTYPE2DTYPE
-    code = sorted(k for k in _STRDTYPE2DTYPE if not k.startswith("torch.q"))
+    # the code's table holds every dtype of torch; the model's the ones the generators use: each must be in the code's,
+    # under the same name, and denote the dtype the harness means by it
     model = R.model([sx([Sym("dtype-table")])])[0]
     model = sorted(str(x) for x in model) if isinstance(model, list) else model
-    if code != model:
-        R.mismatch("dtype-table", {"api": "load_memmap", "desc": {"k": "td", "bs": [], "ents": []}}, code, model)
+    bad = [k for k in model if k not in _STRDTYPE2DTYPE or ALL_DT.get(k[len("torch."):]) is not _STRDTYPE2DTYPE[k]] if isinstance(model, list) else model
+    if bad:
+        R.mismatch("dtype-table", {"api": "load_memmap", "desc": {"k": "td", "bs": [], "ents": []}}, sorted(_STRDTYPE2DTYPE), bad)
 
 
 def main(R):
@@ -2030,8 +2038,8 @@ def main(R):
     R.rule = ("structures: random trees (depth <= 3) of TensorDict nodes, lazy stacks (nested, heterogeneous members), two tensorclasses, "
               "NonTensorData (str/int/bool/None/list/dict/opaque-object payloads), NonTensorStack, empty nodes; leaves of all 16 dtypes of "
               "_STRDTYPE2DTYPE, rank 0..5, contiguous/transposed/strided/expanded/requires-grad/already-memory-mapped (no file, file elsewhere); "
-              "~30% carry one known-defect pattern (0-size leaf, reserved key, tuple/set payload, list-valued stack items, wide NonTensorData, "
-              "float8). Each is saved with memmap/memmap_/memmap_like/save sequentially, with num_threads=1, under every completion order "
+              "~30% carry one formerly-defective pattern (0-size leaf, reserved key [now refused], tuple/set payload, list-valued stack items, "
+              "wide NonTensorData, float8). Each is saved with memmap/memmap_/memmap_like/save sequentially, with num_threads=1, under every completion order "
               "of the writer tasks for <= 5 tasks (else identity/reverse/rotations/random) via the permuting executor, and with the real pool "
               "(2,4,8 threads). distinct = (structure, api, copy_existing); non-trivial = at least 2 nodes+leaves.")
     R.assumptions = ["mmap coherence between mappings/processes and real thread preemption are the OS's: exercised (same process, fork, spawn, "
